@@ -472,6 +472,11 @@ func frameworkStorm(ctx *core.Ctx, ci int, provName string, inflight int, entry 
 				res.rec.failAfter = 12
 			}
 			req := rt.Req{Method: "GET", Path: "/s/get", Hdr: map[string]string{"X-Id": fmt.Sprint(id), "Accept-Encoding": []string{"gzip", "deflate"}[i%2]}}
+			if i%5 == 4 {
+				// content-coding names in another letter case, q-values, several codings: whether such a request is encoded is not
+				// C13's business - if a compressor is acquired for it, it is released once, and the payload is the request's own
+				req.Hdr["Accept-Encoding"] = []string{"GZIP", "Deflate", "gzip;q=0.5, deflate", "DEFLATE, GZip", "identity, gZip"}[(i/5)%5]
+			}
 			if mode == "route-opt-out" && i%3 != 0 {
 				req.Path = "/s/optout"
 			}
@@ -552,7 +557,7 @@ func frameworkStorm(ctx *core.Ctx, ci int, provName string, inflight int, entry 
 		var plain []byte
 		var err error
 		if ce != "" {
-			plain, err = decodeComplete(ce, body)
+			plain, err = decodeComplete(strings.ToLower(ce), body)
 		} else {
 			plain = body
 		}
@@ -586,6 +591,88 @@ func frameworkStorm(ctx *core.Ctx, ci int, provName string, inflight int, entry 
 		a, r := l.Counts()
 		ctx.Sample(map[string]interface{}{"storm": doc, "max_held": l.MaxHeld(), "acquired": a, "released": r})
 	}
+}
+
+// handedOver: SetCompressorProvider may be called while responses are in flight; their compressors are then released into a
+// provider that never handed them out (the interface says of Release*: "does not have to be one that was cached"). Such a
+// provider must go on acquiring and releasing without blocking, for every kind of object, and hand out nothing twice.
+func handedOver(ctx *core.Ctx, ci int, provName string) {
+	inner := c13Provider(provName)
+	l := mon.NewLedger(inner)
+	l.KeepHist, l.Trip = true, true
+	const n = 10
+	gbufs, zbufs := make([]bytes.Buffer, n), make([]bytes.Buffer, n)
+	var readBack [n]string
+	done := make(chan struct{})
+	go func() {
+		defer close(done)
+		// objects of a previous provider arrive first, before this provider has handed out anything
+		for k := 0; k < 3; k++ {
+			gw, _ := gzip.NewWriterLevel(new(bytes.Buffer), gzip.BestSpeed)
+			inner.ReleaseGzipWriter(gw)
+			zw, _ := zlib.NewWriterLevel(new(bytes.Buffer), zlib.BestSpeed)
+			inner.ReleaseZlibWriter(zw)
+			inner.ReleaseGzipReader(new(gzip.Reader))
+		}
+		gws, zws, grs := make([]*gzip.Writer, n), make([]*zlib.Writer, n), make([]*gzip.Reader, n)
+		for i := 0; i < n; i++ {
+			gws[i] = l.AcquireGzipWriter()
+			gws[i].Reset(&gbufs[i])
+			zws[i] = l.AcquireZlibWriter()
+			zws[i].Reset(&zbufs[i])
+		}
+		for i := 0; i < n; i++ {
+			gws[i].Write([]byte(fmt.Sprintf("handed-over-gzip-%d-%d", ci, i)))
+			zws[i].Write([]byte(fmt.Sprintf("handed-over-zlib-%d-%d", ci, i)))
+		}
+		for i := 0; i < n; i++ {
+			gws[i].Close()
+			zws[i].Close()
+			l.ReleaseGzipWriter(gws[i])
+			l.ReleaseZlibWriter(zws[i])
+		}
+		for i := 0; i < n; i++ {
+			grs[i] = l.AcquireGzipReader()
+		}
+		for i := 0; i < n; i++ {
+			if err := grs[i].Reset(bytes.NewReader(gbufs[i].Bytes())); err == nil {
+				b, _ := io.ReadAll(grs[i])
+				readBack[i] = string(b)
+			}
+		}
+		for i := 0; i < n; i++ {
+			l.ReleaseGzipReader(grs[i])
+		}
+	}()
+	doc := map[string]interface{}{"provider": provName, "kind": "handed-over", "objects_of_a_previous_provider_released_first": 9, "held_at_once": n}
+	if blocked, timedOut := mon.WaitQuiescent(done, 45*time.Second); timedOut {
+		atomic.StoreInt32(&c13Abort, 1)
+		if len(blocked) > 0 {
+			doc["blocked"] = blocked
+			cls := "release-blocks"
+			if strings.Contains(blocked[0].Frame, "Acquire") {
+				cls = "acquire-blocks"
+			}
+			ctx.Violation(ci, "c13:"+cls+":handed-over:"+provName, fmt.Sprintf("parked forever in %s after objects of a previous provider were released into this one", blocked[0].Frame), doc)
+		} else {
+			ctx.Inconclusive("hand-over scenario did not finish and no blocked go-restful frame was found")
+		}
+		return
+	}
+	ctx.Eval(1)
+	ctx.Count("provider_hand_overs", 1)
+	for i := 0; i < n; i++ {
+		g, gerr := decodeComplete("gzip", gbufs[i].Bytes())
+		z, zerr := decodeComplete("deflate", zbufs[i].Bytes())
+		wg, wz := fmt.Sprintf("handed-over-gzip-%d-%d", ci, i), fmt.Sprintf("handed-over-zlib-%d-%d", ci, i)
+		if gerr != nil || zerr != nil || string(g) != wg || string(z) != wz || readBack[i] != wg {
+			doc["holder"] = i
+			ctx.Violation(ci, "c13:payload-mixed:handed-over:"+provName, fmt.Sprintf("holder %d: gzip stream %.40q (%v), zlib stream %.40q (%v), read back through a pooled reader %.40q; written %q / %q", i, g, gerr, z, zerr, readBack[i], wg, wz), doc)
+			break
+		}
+	}
+	checkLedger(ctx, ci, l, "handed-over:"+provName, doc)
+	ctx.Sig("handed-over|" + provName)
 }
 
 // directChurn: acquires overlap releases (no barrier): g goroutines x n iterations of acquire/use/release.
@@ -763,7 +850,7 @@ func secondClose(ctx *core.Ctx, ci int, provName, coding string) {
 func c13(ctx *core.Ctx) {
 	quietLogs()
 	atomic.StoreInt32(&c13Abort, 0)
-	ctx.Rule("providers {sync.Pool, bounded cache with (writers, readers) capacity (0,0)/(1,1)/(2,1)/(8,3), custom mutex free-list} behind an instrumenting provider (ledger + trip-wire + history). (A) direct storms: g in {2,4,8} goroutines acquire, use and close a writer, then release together through a spin barrier. (B) storms through Dispatch/ServeHTTP with in-flight in {1,2,capacity,capacity+1,16,64,100} requests all held inside the handler at once, modes {normal (release barrier inside the compressor flush), failing underlying writer, panicking handler with recovery, gzip request bodies via ReadEntity read in 7-byte slices, broken request bodies, handler hijacking the connection, handlers that write no body (nothing, bare 204, zero-length Write), a route that opted out of content encoding, a container filter reading gzip entities of requests that end in 404/405 or at a HandleWithFilter handler}; churn: goroutines acquire/use/release (directly and through Dispatch/ServeHTTP) back to back without barriers, so that acquires overlap releases. (C) second Close. Oracle: no object handed out while held, each acquired object released exactly once, no write through a released writer, every response/request body decodes to its own payload, nobody parked forever in Release/Close (goroutine state), per-object acquire/release history linearizable against a mutex (porcupine). Race detector on. Non-trivial = a storm with >= 2 holders; distinct by (kind, provider, holders, entry, mode, coding).")
+	ctx.Rule("providers {sync.Pool, bounded cache with (writers, readers) capacity (0,0)/(1,1)/(2,1)/(8,3), custom mutex free-list} behind an instrumenting provider (ledger + trip-wire + history). (A) direct storms: g in {2,4,8} goroutines acquire, use and close a writer, then release together through a spin barrier. (B) storms through Dispatch/ServeHTTP with in-flight in {1,2,capacity,capacity+1,16,64,100} requests all held inside the handler at once, modes {normal (release barrier inside the compressor flush), failing underlying writer, panicking handler with recovery, gzip request bodies via ReadEntity read in 7-byte slices, broken request bodies, handler hijacking the connection, handlers that write no body (nothing, bare 204, zero-length Write), a route that opted out of content encoding, a container filter reading gzip entities of requests that end in 404/405 or at a HandleWithFilter handler}; churn: goroutines acquire/use/release (directly and through Dispatch/ServeHTTP) back to back without barriers, so that acquires overlap releases. (C) second Close. (D) hand-over: objects of a previous provider are released into a provider before it has handed out anything (SetCompressorProvider while responses are in flight), then 10 writers of each coding and 10 readers are held at once. Every fifth storm request spells its Accept-Encoding in another letter case or with q-values / two codings. Oracle: no object handed out while held, each acquired object released exactly once, no write through a released writer, every response/request body decodes to its own payload, nobody parked forever in Release/Close (goroutine state), per-object acquire/release history linearizable against a mutex (porcupine). Race detector on. Non-trivial = a storm with >= 2 holders; distinct by (kind, provider, holders, entry, mode, coding).")
 	ctx.Assume("the ledger adds after the inner acquire and removes before the inner release: it cannot false-alarm on provider-internal ordering")
 	defer func() {
 		// after an abort goroutines of the unfinished storm may still be serving: the package-wide provider is left alone
@@ -792,6 +879,14 @@ func c13(ctx *core.Ctx) {
 	churnReps := ctx.N(1, 10)
 	for rep := 0; rep < churnReps; rep++ {
 		for pi, prov := range c13Providers {
+			ci++
+			if !ctx.Skip(ci) && atomic.LoadInt32(&c13Abort) == 0 {
+				ctx.Case(ci, "objects of a previous provider released into provider="+prov)
+				handedOver(ctx, ci, prov)
+				if atomic.LoadInt32(&c13Abort) != 0 {
+					return
+				}
+			}
 			ci++
 			if !ctx.Skip(ci) {
 				ctx.Case(ci, "direct churn provider="+prov)
